@@ -96,6 +96,83 @@ func runC13(cfg *config, res *monitor.Result) {
 		if i < 2 && cfg.shard == 0 {
 			res.Sample(map[string]any{"family": "well-formed message x definition", "input": monitor.Hex(clip(input)), "input_len": len(input), "def": defString(def), "entry_points": "Decode func, Decoder safe, Decoder fast", "accessors": len(accessors)})
 		}
+		// several results of one Decoder alive at the same time (interleaved use on one goroutine): each must
+		// keep returning its own message's values while siblings are read, closed and recycled
+		if i%3 == 0 && len(input) > 0 {
+			other, _ := genMessage(r, genOpts{maxFields: 6, depth: 2, tagPool: defaultTagPool, mark: 'o'})
+			b := append(append([]byte(nil), other...), input...)
+			if lb := walkLevel(b); !lb.wellFormed || len(lb.mixed) > 0 {
+				b = append([]byte(nil), input...)
+			}
+			ins := [][]byte{append([]byte(nil), input...), b, append([]byte(nil), input...), append([]byte(nil), b...)}
+			for _, fast := range []bool{false, true} {
+				mode := csproto.DecoderModeSafe
+				if fast {
+					mode = csproto.DecoderModeFast
+				}
+				dec, err := lazyproto.NewDecoder(def, lazyproto.WithMode(mode))
+				if err != nil {
+					break
+				}
+				x.def, x.mode, x.entry = def, modeStr(fast), "decoder-overlap"
+				cfg.progress.Set("c13-overlap", modeStr(fast), defString(def), monitor.Hex(input), monitor.Hex(b))
+				var rs []*lazyproto.DecodeResult
+				var lvls []*level
+				held := make([][]heldNested, 4)
+				check := func(k int) {
+					x.input = ins[k]
+					first := held[k] == nil
+					if first {
+						held[k] = []heldNested{}
+						x.hold = &held[k]
+					}
+					x.result(rs[k], lvls[k], def, nil, false, 3)
+					x.hold = nil
+					if !first { // nested results handed out earlier by this (still open) result must be unchanged
+						for _, h := range held[k] {
+							x.result(h.nr, h.l, h.def, h.path, h.empty, 0)
+							x.classes["held-nested-result-reread/"+x.mode]++
+						}
+					}
+				}
+				if pi := monitor.Try(func() {
+					for k := 0; k < 3; k++ {
+						dr, err := dec.Decode(ins[k])
+						x.evals++
+						if err != nil {
+							x.input = ins[k]
+							x.viol("Decode", "well-formed-rejected", "Decode failed on a well-formed message: "+err.Error(), nil, nil)
+							return
+						}
+						rs = append(rs, dr)
+						lvls = append(lvls, walkLevel(ins[k]))
+					}
+					for k := range rs {
+						check(k)
+					}
+					_ = rs[0].Close()
+					check(1)
+					check(2)
+					dr, err := dec.Decode(ins[3]) // likely served from recycled objects
+					if err != nil {
+						return
+					}
+					rs = append(rs, dr)
+					lvls = append(lvls, walkLevel(ins[3]))
+					check(3)
+					check(1)
+					_ = rs[2].Close()
+					check(3)
+					check(1)
+					_ = rs[1].Close()
+					check(3)
+					_ = rs[3].Close()
+				}); pi != nil {
+					x.viol("Overlap", "panic", "interleaved use of several results of one Decoder panicked: "+pi.Value, nil, map[string]any{"frame": pi.Frame})
+				}
+				x.classes["overlapping-results/"+modeStr(fast)]++
+			}
+		}
 		// arbitrary bytes: only "no panic"
 		if len(input) > 0 {
 			for k := 0; k < 3; k++ {
